@@ -21,7 +21,9 @@ RULE = ("For Hypothesis-drawn configurations and k, O = complete checkpoint afte
         "128 evenly spaced offsets plus line boundaries); (3) SQLite: process death at every line event, and an exception "
         "raised at every line event of its save (sys.settrace). Oracle: a later restore/load raises, or equals O or N exactly; "
         "for SQLite (transactional) with a previous checkpoint the load must succeed and equal O (N once committed), after an "
-        "injected exception and after a process death alike. Non-trivial = the fault lies "
+        "injected exception and after a process death alike. JSON back-end also: after every injected exception (Exception, "
+        "BaseException or OSError typed) the next complete save must restore as exactly the new checkpoint, and two failed saves in a "
+        "row (the second an I/O error at a sweep of statements) must never end silently half-done. Non-trivial = the fault lies "
         "strictly after the first write and before the last; distinct = (config, k, fault point).")
 ASSUMPTIONS = ["crash = process death at Python statement boundaries of the save function plus synthetic byte truncations of the "
                "file being written; torn sectors / reordered writes below the file-system API are outside the model",
@@ -98,7 +100,8 @@ def raise_at(j, fn, code_obj, interrupt=False):
     sys.settrace(tracer)
     try:
         fn()
-        return "done"
+        # 'done': the j-th line event was never reached; 'swallowed': the error was raised but fn completed all the same
+        return "swallowed" if n[0] > j else "done"
     except Boom:
         return "raised"
     finally:
